@@ -3,13 +3,13 @@
 (* BSON 1.1 (bsonspec.org/spec.html) reference decoder as total recursive  *)
 (* operators over a byte sequence, written from the grammar of the         *)
 (* specification:                                                          *)
-(*   document ::= int32 e_list "\x00"      int32 = total number of bytes   *)
+(*   document ::= int32 e_list x00      int32 = total number of bytes   *)
 (*   e_list   ::= element e_list | ""                                      *)
-(*   element  ::= "\x01" e_name double | "\x02" e_name string | ...        *)
+(*   element  ::= x01 e_name double | x02 e_name string | ...        *)
 (*   e_name   ::= cstring                                                  *)
-(*   string   ::= int32 (byte*) "\x00"     int32 = bytes in (byte*) + 1    *)
-(*   cstring  ::= (byte*) "\x00"                                           *)
-(*   binary   ::= int32 subtype (byte*)    int32 = bytes in (byte*)        *)
+(*   string   ::= int32 (byte* ) x00     int32 = bytes in (byte* ) + 1    *)
+(*   cstring  ::= (byte* ) x00                                           *)
+(*   binary   ::= int32 subtype (byte* )    int32 = bytes in (byte* )        *)
 (*   code_w_s ::= int32 string document    int32 = bytes in code_w_s       *)
 (* and its notes (all integers little-endian; array = document whose keys  *)
 (* are "0", "1", ...; binary subtype 2 carries an inner int32).            *)
@@ -48,9 +48,9 @@ Err == <<"err">>
 (* Suspected defects of the pinned jsoncons, excluded by name so that the   *)
 (* check is green (notes/C07-bson.md, SUSPECTED DEFECTS).  Each name is a   *)
 (* root cause; delete it from Tolerated once /repo is fixed.                *)
-KnownDefect1 == "string-terminator"  \* string ::= int32 (byte*) "\x00": the trailing byte is read but never compared with 0x00
-KnownDefect2 == "bool-byte"          \* "\x08" e_name "\x00" | "\x08" e_name "\x01": any other byte is taken as true
-KnownDefect3 == "minmax-key"         \* "\xFF" e_name / "\x7F" e_name have NO payload; jsoncons reads a string after them
+KnownDefect1 == "string-terminator"  \* string ::= int32 (byte* ) x00: the trailing byte is read but never compared with 0x00
+KnownDefect2 == "bool-byte"          \* x08 e_name x00 | x08 e_name x01: any other byte is taken as true
+KnownDefect3 == "minmax-key"         \* xFF e_name / x7F e_name have NO payload; jsoncons reads a string after them
 KnownDefect4 == "regex-utf8"         \* the two cstrings of a regular expression are not validated (invalid UTF-8 reaches the visitor)
 KnownDefect5 == "array-key-utf8"     \* e_name of array elements is skipped without validation
 Tolerated == {KnownDefect1, KnownDefect2, KnownDefect3, KnownDefect4, KnownDefect5}
@@ -94,7 +94,7 @@ Utf8Ok(s, i) ==
     ELSE IF c = 244 /\ c1 >= 128 /\ c1 <= 143 /\ Tail1(c2) /\ Tail1(c3) THEN Utf8Ok(s, i + 4)
     ELSE FALSE
 (* "cstring: zero or more modified UTF-8 encoded characters followed by     *)
-(* '\x00'".  The specification does not define "modified"; the usual        *)
+(* x00".  The specification does not define "modified"; the usual        *)
 (* meaning (Java) additionally admits C0 80 for U+0000 and three-byte       *)
 (* encodings of the surrogates ED A0..BF xx.  LooseUtf8Ok is the union of   *)
 (* both readings: a cstring outside it is ill-formed under every reading.   *)
@@ -113,14 +113,14 @@ LooseUtf8Ok(s, i) ==
     ELSE FALSE
 
 -----------------------------------------------------------------------------
-(* cstring ::= (byte* ) "\x00", the bytes MUST NOT contain 0x00: it ends at *)
+(* cstring ::= (byte* ) x00, the bytes MUST NOT contain 0x00: it ends at *)
 (* the first 0x00 at or after i, which must lie within the enclosing        *)
 (* document (positions <= lim).  <<"ok", bytes, next>> | Err                *)
 RECURSIVE ScanZero(_, _, _)
 ScanZero(b, k, lim) == IF k > lim THEN 0 ELSE IF b[k] = 0 THEN k ELSE ScanZero(b, k + 1, lim)
 CStr(b, i, lim) == LET z == ScanZero(b, i, lim) IN IF z = 0 THEN Err ELSE <<"ok", SubSeq(b, i, z - 1), z + 1>>
 
-(* string ::= int32 (byte* ) "\x00".  <<"ok", bytes, next, terminatorIsZero>> | Err *)
+(* string ::= int32 (byte* ) x00.  <<"ok", bytes, next, terminatorIsZero>> | Err *)
 StrRaw(b, i, lim) ==
   IF i + 3 > lim THEN Err
   ELSE LET n == LenField(b, i) IN
@@ -128,7 +128,7 @@ StrRaw(b, i, lim) ==
     ELSE IF i + 3 + n > lim THEN Err                   \* last byte of the string is at i + 3 + n
     ELSE LET s == SubSeq(b, i + 4, i + 2 + n) IN
       IF ~Utf8Ok(s, 1) THEN Err                        \* "(byte* ) is zero or more UTF-8 encoded characters"
-      ELSE IF b[i + 3 + n] # 0 THEN Tol(KnownDefect1, <<"ok", s, i + 4 + n, FALSE>>)   \* the trailing "\x00"
+      ELSE IF b[i + 3 + n] # 0 THEN Tol(KnownDefect1, <<"ok", s, i + 4 + n, FALSE>>)   \* the trailing x00
       ELSE <<"ok", s, i + 4 + n, TRUE>>
 StrVal(kind, r) == IF r[1] # "ok" THEN r
                    ELSE <<"ok", IF r[4] THEN <<kind, r[2]>> ELSE <<"bad", KnownDefect1, <<kind, r[2]>> >>, r[3]>>
@@ -160,18 +160,18 @@ Seconds(ps, k, acc) == IF k > Len(ps) THEN acc ELSE Seconds(ps, k + 1, Append(ac
 
 RECURSIVE Doc(_, _, _, _), Elems(_, _, _, _, _, _), Val(_, _, _, _)
 
-(* document ::= int32 e_list "\x00", starting at i and lying within i..lim. *)
+(* document ::= int32 e_list x00, starting at i and lying within i..lim. *)
 (* "int32 is the total number of bytes comprising the document": the        *)
 (* terminator is the byte at i + L - 1 and the e_list fills exactly the     *)
-(* bytes between.  isArr: the document is the payload of an "\x04" element. *)
+(* bytes between.  isArr: the document is the payload of an x04 element. *)
 (* <<"ok", value, next>> | Err | <<"abort", class>>                         *)
 Doc(b, i, lim, isArr) ==
   IF i + 3 > lim THEN Err
   ELSE LET L == LenField(b, i) IN
-    IF L < 5 THEN Err                                  \* int32 + "\x00" is the smallest document
+    IF L < 5 THEN Err                                  \* int32 + x00 is the smallest document
     ELSE LET end == i + L - 1 IN
       IF end > lim THEN Err                            \* longer than the input / than the enclosing document
-      ELSE IF b[end] # 0 THEN Err                      \* the trailing "\x00"
+      ELSE IF b[end] # 0 THEN Err                      \* the trailing x00
       ELSE LET r == Elems(b, i + 4, end - 1, isArr, <<>>, TRUE) IN
         IF r[1] # "ok" THEN r
         ELSE IF ~isArr THEN <<"ok", <<"map", r[2]>>, end + 1>>
@@ -202,24 +202,24 @@ Elems(b, i, lim, isArr, acc, seqOk) ==
 (* The value part of an element of type t starting at i (after the e_name). *)
 Val(b, t, i, lim) ==
   LET Fits(n) == i + n - 1 <= lim IN
-  CASE t = 1 -> IF Fits(8) THEN <<"ok", <<"f64", RevSub(b, i, 8)>>, i + 8>> ELSE Err            \* "\x01" e_name double (8 bytes IEEE 754-2008)
-    [] t = 2 -> StrVal("tstr", StrRaw(b, i, lim))                                                \* "\x02" e_name string
-    [] t = 3 -> Doc(b, i, lim, FALSE)                                                            \* "\x03" e_name document
-    [] t = 4 -> Doc(b, i, lim, TRUE)                                                             \* "\x04" e_name document (array)
-    [] t = 5 -> IF ~Fits(5) THEN Err                                                             \* "\x05" e_name binary
+  CASE t = 1 -> IF Fits(8) THEN <<"ok", <<"f64", RevSub(b, i, 8)>>, i + 8>> ELSE Err            \* x01 e_name double (8 bytes IEEE 754-2008)
+    [] t = 2 -> StrVal("tstr", StrRaw(b, i, lim))                                                \* x02 e_name string
+    [] t = 3 -> Doc(b, i, lim, FALSE)                                                            \* x03 e_name document
+    [] t = 4 -> Doc(b, i, lim, TRUE)                                                             \* x04 e_name document (array)
+    [] t = 5 -> IF ~Fits(5) THEN Err                                                             \* x05 e_name binary
                 ELSE LET n == LenField(b, i) IN
                   IF n < 0 THEN Err
                   ELSE IF i + 4 + n > lim THEN Err
                   ELSE <<"ok", BinVal(b[i + 4], SubSeq(b, i + 5, i + 4 + n)), i + 5 + n>>
-    [] t = 6 -> <<"ok", <<"undef">>, i>>                                                         \* "\x06" e_name  Undefined (deprecated)
-    [] t = 7 -> IF Fits(12) THEN <<"ok", <<"oid", SubSeq(b, i, i + 11)>>, i + 12>> ELSE Err      \* "\x07" e_name (byte*12)
-    [] t = 8 -> IF ~Fits(1) THEN Err                                                             \* "\x08" e_name "\x00" | "\x01"
+    [] t = 6 -> <<"ok", <<"undef">>, i>>                                                         \* x06 e_name  Undefined (deprecated)
+    [] t = 7 -> IF Fits(12) THEN <<"ok", <<"oid", SubSeq(b, i, i + 11)>>, i + 12>> ELSE Err      \* x07 e_name (byte*12)
+    [] t = 8 -> IF ~Fits(1) THEN Err                                                             \* x08 e_name x00 | x01
                 ELSE IF b[i] = 0 THEN <<"ok", <<"bool", FALSE>>, i + 1>>
                 ELSE IF b[i] = 1 THEN <<"ok", <<"bool", TRUE>>, i + 1>>
                 ELSE Tol(KnownDefect2, <<"ok", <<"bad", KnownDefect2, <<"bool", TRUE>> >>, i + 1>>)
-    [] t = 9 -> IF Fits(8) THEN <<"ok", <<"datetime", IntVal(RevSub(b, i, 8))>>, i + 8>> ELSE Err   \* "\x09" e_name int64  UTC datetime
-    [] t = 10 -> <<"ok", <<"null">>, i>>                                                         \* "\x0A" e_name
-    [] t = 11 -> LET p == CStr(b, i, lim) IN                                                     \* "\x0B" e_name cstring cstring
+    [] t = 9 -> IF Fits(8) THEN <<"ok", <<"datetime", IntVal(RevSub(b, i, 8))>>, i + 8>> ELSE Err   \* x09 e_name int64  UTC datetime
+    [] t = 10 -> <<"ok", <<"null">>, i>>                                                         \* x0A e_name
+    [] t = 11 -> LET p == CStr(b, i, lim) IN                                                     \* x0B e_name cstring cstring
                  IF p[1] # "ok" THEN Err
                  ELSE LET o == CStr(b, p[3], lim) IN
                    IF o[1] # "ok" THEN Err
@@ -228,14 +228,14 @@ Val(b, t, i, lim) ==
                      ELSE IF ~Utf8Ok(p[2], 1) \/ ~Utf8Ok(o[2], 1) THEN <<"ok", <<"loose", "cstring-modified-utf8", v>>, o[3]>>
                      ELSE IF ~OptsOk(o[2]) THEN <<"ok", <<"loose", "regex-options", v>>, o[3]>>
                      ELSE <<"ok", v, o[3]>>
-    [] t = 12 -> LET s == StrRaw(b, i, lim) IN                                                   \* "\x0C" e_name string (byte*12)  DBPointer (deprecated)
+    [] t = 12 -> LET s == StrRaw(b, i, lim) IN                                                   \* x0C e_name string (byte*12)  DBPointer (deprecated)
                  IF s[1] # "ok" THEN s
                  ELSE IF s[3] + 11 > lim THEN Err
                  ELSE LET v == <<"dbptr", s[2], SubSeq(b, s[3], s[3] + 11)>> IN
                       <<"ok", <<"loose", "deprecated-type", IF s[4] THEN v ELSE <<"bad", KnownDefect1, v>> >>, s[3] + 12>>
-    [] t = 13 -> StrVal("code", StrRaw(b, i, lim))                                               \* "\x0D" e_name string  JavaScript code
-    [] t = 14 -> StrVal("symbol", StrRaw(b, i, lim))                                             \* "\x0E" e_name string  Symbol (deprecated)
-    [] t = 15 -> IF ~Fits(4) THEN Err                                                            \* "\x0F" e_name code_w_s (deprecated)
+    [] t = 13 -> StrVal("code", StrRaw(b, i, lim))                                               \* x0D e_name string  JavaScript code
+    [] t = 14 -> StrVal("symbol", StrRaw(b, i, lim))                                             \* x0E e_name string  Symbol (deprecated)
+    [] t = 15 -> IF ~Fits(4) THEN Err                                                            \* x0F e_name code_w_s (deprecated)
                  ELSE LET T == LenField(b, i) IN                                                 \* code_w_s ::= int32 string document
                    IF T < 14 THEN Err                                                            \* 4 + (4 + 1) + 5
                    ELSE IF i + T - 1 > lim THEN Err
@@ -246,19 +246,19 @@ Val(b, t, i, lim) ==
                        ELSE IF d[3] # i + T THEN Err                                             \* "int32 is the length in bytes of the entire code_w_s value"
                        ELSE LET v == <<"codews", s[2], d[2]>> IN
                             <<"ok", <<"loose", "deprecated-type", IF s[4] THEN v ELSE <<"bad", KnownDefect1, v>> >>, d[3]>>
-    [] t = 16 -> IF Fits(4) THEN <<"ok", IntVal(RevSub(b, i, 4)), i + 4>> ELSE Err               \* "\x10" e_name int32
-    [] t = 17 -> IF Fits(8) THEN <<"ok", <<"ts", RevSub(b, i, 8)>>, i + 8>> ELSE Err             \* "\x11" e_name uint64  Timestamp
-    [] t = 18 -> IF Fits(8) THEN <<"ok", IntVal(RevSub(b, i, 8)), i + 8>> ELSE Err               \* "\x12" e_name int64
-    [] t = 19 -> IF Fits(16) THEN <<"ok", <<"dec128", SubSeq(b, i, i + 15)>>, i + 16>> ELSE Err  \* "\x13" e_name decimal128 (16 bytes)
-    [] t = 255 -> IF KnownDefect3 \in Tolerated THEN <<"abort", KnownDefect3>> ELSE <<"ok", <<"minkey">>, i>>   \* "\xFF" e_name  Min key
-    [] t = 127 -> IF KnownDefect3 \in Tolerated THEN <<"abort", KnownDefect3>> ELSE <<"ok", <<"maxkey">>, i>>   \* "\x7F" e_name  Max key
+    [] t = 16 -> IF Fits(4) THEN <<"ok", IntVal(RevSub(b, i, 4)), i + 4>> ELSE Err               \* x10 e_name int32
+    [] t = 17 -> IF Fits(8) THEN <<"ok", <<"ts", RevSub(b, i, 8)>>, i + 8>> ELSE Err             \* x11 e_name uint64  Timestamp
+    [] t = 18 -> IF Fits(8) THEN <<"ok", IntVal(RevSub(b, i, 8)), i + 8>> ELSE Err               \* x12 e_name int64
+    [] t = 19 -> IF Fits(16) THEN <<"ok", <<"dec128", SubSeq(b, i, i + 15)>>, i + 16>> ELSE Err  \* x13 e_name decimal128 (16 bytes)
+    [] t = 255 -> IF KnownDefect3 \in Tolerated THEN <<"abort", KnownDefect3>> ELSE <<"ok", <<"minkey">>, i>>   \* xFF e_name  Min key
+    [] t = 127 -> IF KnownDefect3 \in Tolerated THEN <<"abort", KnownDefect3>> ELSE <<"ok", <<"maxkey">>, i>>   \* x7F e_name  Max key
     [] OTHER -> Err                                                                              \* no production for any other type byte
 
 (* The top-level item is a document.  An "abort" (the parse reached, in     *)
 (* input order, a construct after which the pinned jsoncons is known to     *)
 (* lose synchronisation - KnownDefect3) leaves the whole input              *)
 (* unconstrained; the structural checks that precede it (declared sizes,    *)
-(* trailing "\x00" of every enclosing document) are necessary for any       *)
+(* trailing x00 of every enclosing document) are necessary for any       *)
 (* sequential decoder to accept, so "err" from them stays binding.          *)
 Decode(b) == LET r == Doc(b, 1, Len(b), FALSE) IN
              IF r[1] = "abort" THEN <<"ok", <<"bad", r[2], <<"null">> >>, 1>> ELSE r
@@ -280,7 +280,7 @@ Plain(v) ==
 
 (* MayRefuse(v): the verdict is not compared.                               *)
 (*  "loose" classes - well-formed, or the specification is ambiguous:       *)
-(*    deprecated-type         DBPointer "\x0C" and code_w_s "\x0F" (deprecated; jsoncons documents no mapping for them) *)
+(*    deprecated-type         DBPointer x0C and code_w_s x0F (deprecated; jsoncons documents no mapping for them) *)
 (*    binary-old-structure    subtype 2 whose inner int32 does not match (payload may be treated as opaque)             *)
 (*    binary-subtype-length   UUID / MD5 payload that is not 16 bytes                                                   *)
 (*    binary-subtype-unassigned  subtype 0x0A..0x7F (not in the table, not user defined)                                *)
